@@ -212,7 +212,8 @@ class Gen:
                     node = {"processor": f"delete:{key}"}
                     keys.discard(key)
                 elif kind == "template":
-                    scal = sorted(k for k in keys if k not in list_keys and not k.endswith("_values") and not k.startswith(("info", "plist", "seq")))
+                    scal = sorted(k for k in keys if k not in list_keys and not k.endswith("_values")
+                                  and not k.startswith(("info", "plist", "seq")) and k not in ("path", "tag", "label"))
                     srcs = rng.sample(scal, min(len(scal), rng.randint(1, 2))) if scal and self.chance(0.85) else [rng.choice(KEY_ALPHABET)]
                     out = rng.choice(["path", "tag", "label", srcs[0]])
                     q = rng.choice(['"', "'"])
